@@ -54,25 +54,57 @@ Qed.
 (* ---- one underlying read ---- *)
 Definition nonempty (b : bytes) : Prop := b <> [].
 
-Lemma read_more_spec space segs fin got segs' serr' :
-  0 < space -> Forall nonempty segs -> read_more space 0 segs fin = (got, segs', serr') ->
-  (segs = [] /\ got = [] /\ segs' = [] /\ serr' = Some fin) \/
-  (segs <> [] /\ got <> [] /\ serr' = None /\ got ++ concat segs' = concat segs /\
-   lenN got <= space /\ Forall nonempty segs').
+(* the read segments a well-behaved io.Reader may produce: never more than 100 empty reads in a
+   row (bufio gives up with io.ErrNoProgress after that); k = empty reads already seen *)
+Fixpoint runs_ok_from (k : nat) (segs : list bytes) : bool :=
+  match segs with
+  | [] => true
+  | [] :: t => (S k <=? 100)%nat && runs_ok_from (S k) t
+  | (_ :: _) :: t => runs_ok_from 0 t
+  end.
+Definition runs_ok (segs : list bytes) : Prop := runs_ok_from 0 segs = true.
+
+Lemma nonempty_runs_ok segs : Forall nonempty segs -> forall k, runs_ok_from k segs = true.
 Proof.
-  intros Hs Hne H. destruct segs as [|seg rest].
+  induction 1 as [|seg rest Hs _ IH]; intros k; [reflexivity|].
+  destruct seg; [now elim Hs|]. cbn. apply IH.
+Qed.
+
+Lemma read_more_spec space dt fin : forall segs loop got segs' serr',
+  0 < space -> runs_ok_from (N.to_nat loop) segs = true ->
+  read_more space loop segs fin dt = (got, segs', serr') ->
+  (concat segs = [] /\ got = [] /\ segs' = [] /\ serr' = Some fin) \/
+  (got <> [] /\ serr' = None /\ got ++ concat segs' = concat segs /\
+   lenN got <= space /\ runs_ok_from 0 segs' = true) \/
+  (got <> [] /\ serr' = Some fin /\ segs' = [] /\ got = concat segs /\ lenN got <= space).
+Proof.
+  induction segs as [|seg rest IH]; intros loop got segs' serr' Hs Hne H.
   - cbn in H. inversion H; subst. left. auto.
-  - right. inversion Hne as [|? ? Hseg Hrest]; subst. destruct seg as [|c seg]; [now elim Hseg|].
-    cbn [read_more] in H. destruct (space =? 0) eqn:E0; [apply N.eqb_eq in E0; lia|].
-    unfold takeN in H. destruct (take (N.to_nat space) (c :: seg)) as [[a r]|] eqn:Et.
-    + destruct (take_some _ _ _ _ Et) as [Hb Hl]. inversion H; subst got segs' serr'. clear H.
-      assert (a <> []) by (intros ->; cbn in Hl; lia).
-      repeat split; auto; try discriminate.
-      * destruct r as [|r0 r]; cbn [concat]; rewrite Hb; [now rewrite app_nil_r|now rewrite app_assoc].
-      * rewrite lenN_spec. lia.
-      * destruct r; [auto|]. constructor; [discriminate|auto].
-    + apply take_none in Et. inversion H; subst got segs' serr'. clear H.
-      repeat split; auto; try discriminate. rewrite lenN_spec. lia.
+  - destruct seg as [|c seg].
+    + cbn [read_more] in H. cbn [runs_ok_from] in Hne. apply andb_true_iff in Hne as [Hk Hrest].
+      apply Nat.leb_le in Hk.
+      destruct (max_empty_reads <? loop + 1) eqn:E; [apply N.ltb_lt in E; unfold max_empty_reads in E; lia|].
+      cbn [concat app]. apply (IH (loop + 1)); auto.
+      replace (N.to_nat (loop + 1)) with (S (N.to_nat loop)) by lia. exact Hrest.
+    + right. cbn [runs_ok_from] in Hne.
+      cbn [read_more] in H. destruct (space =? 0) eqn:E0; [apply N.eqb_eq in E0; lia|].
+      unfold takeN in H. destruct (take (N.to_nat space) (c :: seg)) as [[a r]|] eqn:Et.
+      * destruct (take_some _ _ _ _ Et) as [Hb Hl].
+        assert (a <> []) by (intros ->; cbn in Hl; lia).
+        assert (lenN a <= space) by (rewrite lenN_spec; lia).
+        destruct r as [|r0 r].
+        -- rewrite app_nil_r in Hb. destruct rest as [|s2 rest]; [destruct dt|]; inversion H; subst got segs' serr'; clear H.
+           ++ right. cbn [concat]. rewrite app_nil_r. repeat split; auto.
+           ++ left. cbn [concat]. rewrite !app_nil_r. repeat split; auto.
+           ++ left. cbn [concat]. repeat split; auto. now rewrite Hb.
+        -- inversion H; subst got segs' serr'; clear H. left. repeat split; auto.
+           cbn [concat]. rewrite Hb. now rewrite app_assoc.
+      * apply take_none in Et.
+        assert (lenN (c :: seg) <= space) by (rewrite lenN_spec; lia).
+        destruct rest as [|s2 rest]; [destruct dt|]; inversion H; subst got segs' serr'; clear H.
+        -- right. cbn [concat]. rewrite app_nil_r. repeat split; auto; discriminate.
+        -- left. cbn [concat]. rewrite !app_nil_r. repeat split; auto; discriminate.
+        -- left. cbn [concat]. repeat split; auto; discriminate.
 Qed.
 
 (* ---- scanner invariant and the limit below which ErrTooLong cannot happen ---- *)
@@ -86,11 +118,11 @@ Definition remaining (st : sc) (segs : list bytes) (serr : option N) : bytes :=
 Definition measure (st : sc) (segs : list bytes) (serr : option N) : nat :=
   (length (pend st) + match serr with None => S (2 * length (concat segs)) | Some _ => 0 end)%nat.
 
-Lemma drain_Strip : forall fuel st segs serr out,
-  inv st -> Forall nonempty segs -> (serr = None \/ serr = Some 0) ->
+Lemma drain_Strip dt : forall fuel st segs serr out,
+  inv st -> runs_ok_from 0 segs = true -> (serr = None \/ serr = Some 0) ->
   lenN (remaining st segs serr) < tok_limit ->
   (measure st segs serr < fuel)%nat ->
-  Strip (remaining st segs serr) out (drain fuel st segs 0 serr out).
+  Strip (remaining st segs serr) out (drain fuel st segs 0 dt serr out).
 Proof.
   induction fuel as [|fuel IH]; intros st segs serr out [I1 I2] Hne Hserr Hlim Hm; [lia|].
   cbn [drain]. destruct Hserr as [-> | ->].
@@ -125,10 +157,10 @@ Proof.
         { unfold ns. destruct (cap st1 * 2 =? 0) eqn:Z0; [apply N.eqb_eq in Z0; unfold start_buf_size; lia|].
           apply N.eqb_neq in Z0. lia. }
         cbn [pend plen start cap].
-        destruct (read_more (N.min ns max_token - (0 + plen st1)) 0 segs 0) as [[got segs'] serr'] eqn:R.
+        destruct (read_more (N.min ns max_token - (0 + plen st1)) 0 segs 0 dt) as [[got segs'] serr'] eqn:R.
         apply read_more_spec in R; [|lia|auto].
-        destruct R as [(-> & -> & -> & ->) | (Hs & Hg & -> & Hcat & Hgl & Hne')].
-        -- rewrite P1, L1. cbn [concat]. rewrite !app_nil_r.
+        destruct R as [(Hc0 & -> & -> & ->) | [(Hg & -> & Hcat & Hgl & Hne') | (Hg & -> & -> & Hcat & Hgl)]].
+        -- rewrite Hc0 in *. rewrite P1, L1. rewrite !app_nil_r.
            specialize (IH {| pend := pend st; plen := plen st + lenN []; start := 0; cap := N.min ns max_token |} [] (Some 0) out).
            unfold remaining, measure in IH. cbn [pend] in IH. cbn [concat] in *. rewrite app_nil_r in *. apply IH; auto.
            ++ split; cbn [pend plen start cap]; change (lenN []) with 0; lia.
@@ -139,11 +171,17 @@ Proof.
            ++ split; cbn [pend plen start cap]; [rewrite lenN_app; lia|lia].
            ++ rewrite app_length. rewrite <- Hcat, app_length in Hm.
               assert (length got <> 0)%nat by (destruct got; [congruence|cbn; lia]). lia.
+        -- rewrite P1, L1.
+           specialize (IH {| pend := pend st ++ got; plen := plen st + lenN got; start := 0; cap := N.min ns max_token |} [] (Some 0) out).
+           unfold remaining, measure in IH. cbn [pend] in IH. rewrite app_nil_r in IH. rewrite <- Hcat. apply IH; auto.
+           ++ split; cbn [pend plen start cap]; [rewrite lenN_app; lia|lia].
+           ++ rewrite <- Hcat in Hlim. exact Hlim.
+           ++ rewrite app_length. rewrite <- Hcat in Hm. lia.
       * apply N.eqb_neq in Efull. cbn [andb].
-        destruct (read_more (cap st1 - (start st1 + plen st1)) 0 segs 0) as [[got segs'] serr'] eqn:R.
+        destruct (read_more (cap st1 - (start st1 + plen st1)) 0 segs 0 dt) as [[got segs'] serr'] eqn:R.
         apply read_more_spec in R; [|lia|auto].
-        destruct R as [(-> & -> & -> & ->) | (Hs & Hg & -> & Hcat & Hgl & Hne')].
-        -- rewrite P1, L1. cbn [concat]. rewrite !app_nil_r.
+        destruct R as [(Hc0 & -> & -> & ->) | [(Hg & -> & Hcat & Hgl & Hne') | (Hg & -> & -> & Hcat & Hgl)]].
+        -- rewrite Hc0 in *. rewrite P1, L1. rewrite !app_nil_r.
            specialize (IH {| pend := pend st; plen := plen st + lenN []; start := start st1; cap := cap st1 |} [] (Some 0) out).
            unfold remaining, measure in IH. cbn [pend] in IH. cbn [concat] in *. rewrite app_nil_r in *. apply IH; auto.
            ++ split; cbn [pend plen start cap]; change (lenN []) with 0; lia.
@@ -154,6 +192,12 @@ Proof.
            ++ split; cbn [pend plen start cap]; [rewrite lenN_app; lia|lia].
            ++ rewrite app_length. rewrite <- Hcat, app_length in Hm.
               assert (length got <> 0)%nat by (destruct got; [congruence|cbn; lia]). lia.
+        -- rewrite P1, L1.
+           specialize (IH {| pend := pend st ++ got; plen := plen st + lenN got; start := start st1; cap := cap st1 |} [] (Some 0) out).
+           unfold remaining, measure in IH. cbn [pend] in IH. rewrite app_nil_r in IH. rewrite <- Hcat. apply IH; auto.
+           ++ split; cbn [pend plen start cap]; [rewrite lenN_app; lia|lia].
+           ++ rewrite <- Hcat in Hlim. exact Hlim.
+           ++ rewrite app_length. rewrite <- Hcat in Hm. lia.
     + (* a token from the buffered prefix: the same token as on the whole remaining input *)
       destruct (split_tok_facts _ _ _ _ E) as [Ha _]. rewrite lenZ_spec in Ha.
       assert (Hpl : Z.of_N (plen st) = Z.of_nat (length (pend st))) by (rewrite I1, lenN_spec; lia).
@@ -162,11 +206,11 @@ Proof.
       eapply St_tok; [apply split_stable; exact E|].
       replace (match tok with [] | _ => _ end) with
         (drain fuel {| pend := skipn (N.to_nat (Z.to_N adv)) (pend st); plen := plen st - Z.to_N adv;
-                       start := start st + Z.to_N adv; cap := cap st |} segs 0 None (push tok out))
+                       start := start st + Z.to_N adv; cap := cap st |} segs 0 dt None (push tok out))
         by (destruct tok; reflexivity).
       rewrite skipn_app. replace (Z.to_nat adv - length (pend st))%nat with 0%nat by lia. cbn [skipn].
       replace (Z.to_nat adv) with (N.to_nat (Z.to_N adv)) by lia.
-      match goal with |- Strip _ _ (drain fuel ?s _ _ _ _) => specialize (IH s segs None (push tok out)) end.
+      match goal with |- Strip _ _ (drain fuel ?s _ _ _ _ _) => specialize (IH s segs None (push tok out)) end.
       unfold remaining, measure in IH. cbn [pend] in IH. apply IH; auto.
       * split; cbn [pend plen start cap]; [rewrite lenN_spec, skipn_length; lia|lia].
       * rewrite lenN_app in *. rewrite lenN_spec in *. rewrite skipn_length. lia.
@@ -182,10 +226,10 @@ Proof.
       eapply St_tok; [exact E|].
       replace (match tok with [] => _ | _ :: _ => _ end) with
         (drain fuel {| pend := skipn (N.to_nat (Z.to_N adv)) (pend st); plen := plen st - Z.to_N adv;
-                       start := start st + Z.to_N adv; cap := cap st |} segs 0 (Some 0) (push tok out))
+                       start := start st + Z.to_N adv; cap := cap st |} segs 0 dt (Some 0) (push tok out))
         by (destruct tok; reflexivity).
       replace (Z.to_nat adv) with (N.to_nat (Z.to_N adv)) by lia.
-      match goal with |- Strip _ _ (drain fuel ?s _ _ _ _) => specialize (IH s segs (Some 0) (push tok out)) end.
+      match goal with |- Strip _ _ (drain fuel ?s _ _ _ _ _) => specialize (IH s segs (Some 0) (push tok out)) end.
       unfold remaining, measure in IH. cbn [pend] in IH. rewrite app_nil_r in IH. apply IH; auto.
       * split; cbn [pend plen start cap]; [rewrite lenN_spec, skipn_length; lia|lia].
       * rewrite lenN_spec in *. rewrite skipn_length. lia.
@@ -195,20 +239,32 @@ Proof.
 Qed.
 
 (* [core] for every segmentation into non-empty reads the reader computes strip of the whole input *)
-Lemma reader_strip segs :
-  Forall nonempty segs -> lenN (concat segs) < tok_limit -> reader segs 0 = strip (concat segs).
+Lemma reader_dt_strip segs dt :
+  runs_ok segs -> lenN (concat segs) < tok_limit -> reader_dt segs 0 dt = strip (concat segs).
 Proof.
   intros Hne Hlim. destruct (strip_Strip (concat segs)) as (o & r & HS & ->).
-  unfold reader.
-  pose proof (drain_Strip (drain_fuel segs) sc0 segs None [] ) as D.
+  unfold reader_dt.
+  pose proof (drain_Strip dt (drain_fuel segs) sc0 segs None [] ) as D.
   unfold remaining, measure in D. cbn [sc0 pend app] in D.
   specialize (D ltac:(split; cbn; lia) Hne ltac:(now left) Hlim ltac:(unfold drain_fuel; cbn [length]; lia)).
-  destruct (drain _ sc0 segs 0 None []) as [o' r'].
+  destruct (drain _ sc0 segs 0 dt None []) as [o' r'].
   pose proof (Strip_det _ _ _ D _ HS) as Eq. now inversion Eq.
 Qed.
 
+Lemma reader_strip segs :
+  runs_ok segs -> lenN (concat segs) < tok_limit -> reader segs 0 = strip (concat segs).
+Proof. exact (reader_dt_strip segs false). Qed.
+
+(* whether the last bytes arrive together with EOF or before it makes no difference *)
+Lemma reader_dt_segmentation segs1 segs2 dt1 dt2 :
+  runs_ok segs1 -> runs_ok segs2 -> concat segs1 = concat segs2 ->
+  lenN (concat segs1) < tok_limit -> reader_dt segs1 0 dt1 = reader_dt segs2 0 dt2.
+Proof.
+  intros H1 H2 Hc Hl. rewrite (reader_dt_strip segs1 dt1 H1 Hl). rewrite Hc in Hl. rewrite (reader_dt_strip segs2 dt2 H2 Hl). now rewrite Hc.
+Qed.
+
 Lemma reader_segmentation segs1 segs2 :
-  Forall nonempty segs1 -> Forall nonempty segs2 -> concat segs1 = concat segs2 ->
+  runs_ok segs1 -> runs_ok segs2 -> concat segs1 = concat segs2 ->
   lenN (concat segs1) < tok_limit -> reader segs1 0 = reader segs2 0.
 Proof.
   intros H1 H2 Hc Hl. rewrite (reader_strip segs1 H1 Hl). rewrite Hc in Hl. rewrite (reader_strip segs2 H2 Hl). now rewrite Hc.
